@@ -34,7 +34,7 @@ class C09(BaseCheck):
                  'black-holed connects give up after 3 s in these scenarios (SYN timeout shortened so that '
                  'attempt durations stay small against the retry intervals)')
   QUICK_CASES = 256
-  THOROUGH_CASES = 3000
+  THOROUGH_CASES = 6000
   QUICK_WALL = 60
   THOROUGH_WALL = 480
   MIN_DISTINCT = 10
